@@ -1,9 +1,9 @@
 CONSTANTS
   MaxBlocks = 4
-  MaxInv = 1
+  MaxInv = 0
   TxU <- TxUDef
   Lists <- ListsC02
-  CbModes = {"zero", "over"}
+  CbModes = {"zero"}
   Dts = {1}
   H0 = 101
   BaseDt = 1
